@@ -37,6 +37,8 @@ def base_scenarios(rng, n):
                 op['progress_bar'] = True
             if rng.random() < .4:
                 op['init'] = op['exit'] = True
+            if rng.random() < .3:
+                pool['keep_alive'] = True       # the workers are told to pause, not to stop, when the call ends
         out.append({'seed': rng.randint(0, 10 ** 6), 'pool': pool, 'ops': [op]})
     return out
 
